@@ -14,6 +14,7 @@
 (* Patch returned an error.                                                *)
 (***************************************************************************)
 EXTENDS DiffRel, TraceCore
+FieldOrder == [k |-> 0, v |-> 0]   \* must stay the first definition of a root module (JsonValue.tla)
 
 CONSTANT Props,       \* the property ids whose clauses are judged in this run
          KnownDevs    \* names of the listed deviations (known_findings.json) that may explain a failure
@@ -133,7 +134,14 @@ TEqualsAB ==
   /\ IsEvent("EqualsAB") /\ Consume /\ UNCHANGED <<ctx, doc, rest, status>>
   /\ Judge("C05") =>
        /\ Check(Rec.res.st = "ok", "C05", "equals-call")
-       /\ Rec.res.st = "ok" => Check((ctx.d = <<>>) <=> Rec.res.bool, "C05", "empty-iff-equal")
+       /\ Rec.res.st = "ok" =>
+            IF (ctx.d = <<>>) <=> Rec.res.bool THEN TRUE
+            ELSE IF /\ "diff-ignores-precision" \in KnownDevs /\ ctx.o.eps > 0
+                    \* what the code does: Diff compares numbers exactly, Equals within eps
+                    /\ Rec.res.bool = Eq(ctx.a, ctx.b, ctx.o)
+                    /\ (ctx.d = <<>>) <=> Eq(ctx.a, ctx.b, [ctx.o EXCEPT !.eps = 0])
+                 THEN PrintT(<<"JDV-KNOWN", Rec.sess, "C05", "diff-ignores-precision">>)
+            ELSE FailLine("C05", "empty-iff-equal")
        /\ Rec.res.st = "ok" => Note(Rec.res.bool = Eq(ctx.a, ctx.b, ctx.o), "C05", "equals-oracle")
 
 TEnd ==
